@@ -1558,6 +1558,253 @@ Section PassBump.
   Qed.
 End PassBump.
 
+(** * What one pass of the ObjectSet controller does to the list of stored ObjectSets *)
+Section SetFrame.
+  Variable force : bool.
+  Variables k ns n : N.
+  Variable sw0 : sworld.
+  Variable mem0 : oset.
+  Hypothesis Hfind0 : find_set (sw_sets sw0) k ns n = Some mem0.
+  Hypothesis Hnd0 : NoDup (map (fun y => oi_name (os_id y)) (sw_sets sw0)).
+
+  Definition oname (y : oset) : N := oi_name (os_id y).
+
+  Definition revok (x : oset) : Prop :=
+    os_revision x = os_revision mem0 \/
+    (os_revision mem0 = 0%Z /\ os_revision x <> 0%Z /\
+     forall nm, In nm (os_prev mem0) -> exists q, In q (sw_sets sw0) /\ oname q = nm /\ (os_revision q < os_revision x)%Z).
+  Definition okm (x : oset) : Prop :=
+    os_id x = os_id mem0 /\ os_prev x = os_prev mem0 /\ os_deleting x = os_deleting mem0 /\ revok x.
+
+  Record fr (sw : sworld) : Prop := {
+    fr_old : forall x, In x (sw_sets sw) -> In x (sw_sets sw0) \/ okm x;
+    fr_keep : forall x, In x (sw_sets sw0) -> In x (sw_sets sw) \/ os_id x = os_id mem0;
+    fr_nodup : NoDup (map oname (sw_sets sw));
+    fr_present : (exists x, In x (sw_sets sw) /\ okm x) \/ os_deleting mem0 = true
+  }.
+
+  Lemma mem0_in : In mem0 (sw_sets sw0).
+  Proof. eapply find_set_in; eauto. Qed.
+  Lemma mem0_key : oi_kind (os_id mem0) = k /\ oi_ns (os_id mem0) = ns /\ oi_name (os_id mem0) = n.
+  Proof. eapply find_set_id; eauto. Qed.
+
+  Lemma okm_mem0 : okm mem0.
+  Proof. repeat split; auto. now left. Qed.
+
+  Lemma fr_init : fr sw0.
+  Proof.
+    constructor; auto.
+    left. exists mem0. split; [apply mem0_in|apply okm_mem0].
+  Qed.
+
+  (** the stored copy of the target *)
+  Lemma stored_okm sw st : fr sw -> find_set (sw_sets sw) k ns n = Some st -> okm st.
+  Proof.
+    intros F Hf. pose proof (find_set_in _ _ _ _ _ Hf) as Hin. pose proof (find_set_id _ _ _ _ _ Hf) as (_ & _ & Hn).
+    destruct (fr_old _ F st Hin) as [H0|H0]; [|assumption].
+    assert (st = mem0); [|subst; apply okm_mem0].
+    apply (NoDup_map_eq (fun y => oi_name (os_id y)) (sw_sets sw0)); auto; [apply mem0_in|]. destruct mem0_key as (_ & _ & ->). exact Hn.
+  Qed.
+
+  Lemma okm_key m : okm m -> oi_kind (os_id m) = k /\ oi_ns (os_id m) = ns /\ oi_name (os_id m) = n.
+  Proof. intros (-> & _). apply mem0_key. Qed.
+
+  Lemma okm_same m m' : okm m -> os_id m' = os_id m -> os_prev m' = os_prev m -> os_deleting m' = os_deleting m ->
+    os_revision m' = os_revision m -> okm m'.
+  Proof. intros (H1 & H2 & H3 & H4) E1 E2 E3 E4. unfold okm, revok in *. rewrite E1, E2, E3, E4. auto. Qed.
+
+  Lemma fr_put sw st x' :
+    fr sw -> find_set (sw_sets sw) k ns n = Some st -> okm x' ->
+    fr {| sw_w := bump_rv (sw_w sw); sw_sets := put_set (sw_sets sw) x' |}.
+  Proof.
+    intros F Hf Hx. pose proof (stored_okm _ _ F Hf) as Hst. destruct (okm_key _ Hx) as (K1 & K2 & K3).
+    assert (Hf' : find_set (sw_sets sw) (oi_kind (os_id x')) (oi_ns (os_id x')) (oi_name (os_id x')) = Some st) by now rewrite K1, K2, K3.
+    constructor; cbn [sw_sets].
+    - intros x Hin. apply in_put_set in Hin. destruct Hin as [->|Hin]; [now right|now apply (fr_old _ F)].
+    - intros x Hin. destruct (fr_keep _ F x Hin) as [H|H]; [|now right].
+      destruct (put_set_in _ _ _ _ Hf' H) as [->|H']; [right; apply Hst|now left].
+    - unfold oname. rewrite (put_set_names _ _ _ Hf'). apply (fr_nodup _ F).
+    - left. exists x'. split; [eapply put_set_self; eauto|assumption].
+  Qed.
+
+  Lemma update_status_fr sw m sw' m' ok :
+    fr sw -> okm m -> update_status sw m = (sw', m', ok) -> fr sw' /\ okm m'.
+  Proof.
+    intros F Hm Hu. destruct (update_status_shape _ _ _ _ _ Hu) as [[-> ->]|(st & Hf & _ & _ & -> & -> & _)]; [auto|].
+    destruct (okm_key _ Hm) as (K1 & K2 & K3). rewrite K1, K2, K3 in Hf.
+    pose proof (stored_okm _ _ F Hf) as Hst.
+    assert (Hx : okm (with_status st m (w_rv (sw_w sw)))).
+    { destruct Hst as (S1 & S2 & S3 & _). destruct Hm as (_ & _ & _ & M4). unfold okm, revok. cbn. auto. }
+    split; [eapply fr_put; eauto|assumption].
+  Qed.
+
+  Lemma in_del_set_iff sets id x : In x (del_set sets id) <-> In x sets /\ oid_eqb (os_id x) id = false.
+  Proof. unfold del_set. rewrite filter_In, negb_true_iff. tauto. Qed.
+
+  Lemma oid_eqb_refl i : oid_eqb i i = true.
+  Proof. unfold oid_eqb. now rewrite !N.eqb_refl. Qed.
+
+  Lemma patch_finalizer_fr sw m fin sw' r :
+    fr sw -> okm m -> patch_finalizer sw m fin = (sw', r) ->
+    fr sw' /\ match r with Some m' => okm m' | None => True end.
+  Proof.
+    intros F Hm. unfold patch_finalizer. destruct (okm_key _ Hm) as (K1 & K2 & K3). rewrite K1, K2, K3.
+    destruct (find_set (sw_sets sw) k ns n) as [st|] eqn:Hf; [|intros H; injection H as <- <-; auto].
+    destruct (negb (os_rv st =? os_rv m)); [intros H; injection H as <- <-; auto|].
+    pose proof (stored_okm _ _ F Hf) as Hst.
+    assert (Hx : okm (set_fin st fin (w_rv (sw_w sw)))) by (eapply okm_same; [exact Hst|reflexivity..]).
+    destruct (negb fin && os_deleting st && negb (os_orphan st)) eqn:Ed; intros H; injection H as <- <-; (split; [|exact Hx]).
+    - apply andb_true_iff in Ed. destruct Ed as [Ed _]. apply andb_true_iff in Ed. destruct Ed as [_ Ed].
+      constructor; cbn [sw_sets].
+      + intros x Hin. apply in_del_set_iff in Hin. apply (fr_old _ F). tauto.
+      + intros x Hin. destruct (fr_keep _ F x Hin) as [H|H]; [|now right].
+        destruct (oid_eqb (os_id x) (os_id st)) eqn:E; [|left; apply in_del_set_iff; auto].
+        right. assert (x = mem0); [|now subst].
+        apply (NoDup_map_eq (fun y => oi_name (os_id y)) (sw_sets sw0)); auto; [apply mem0_in|].
+        unfold oid_eqb in E. apply andb_true_iff in E. destruct E as [_ E]. apply N.eqb_eq in E. rewrite E.
+        destruct Hst as (-> & _). reflexivity.
+      + unfold del_set. apply NoDup_map_filter. apply (fr_nodup _ F).
+      + right. destruct Hst as (_ & _ & <- & _). exact Ed.
+    - eapply fr_put; eauto.
+  Qed.
+
+  Lemma fr_with_w sw w : fr sw -> fr (with_w sw w).
+  Proof. intros [A B C D]. constructor; auto. Qed.
+
+  Lemma revision_pass_fr sw mem sw1 evs1 mem1 rr :
+    fr sw -> okm mem -> revision_pass sw mem = (sw1, evs1, mem1, rr) -> fr sw1 /\ okm mem1.
+  Proof.
+    intros F Hm. unfold revision_pass.
+    destruct (negb (Z.eqb (os_revision mem) 0)) eqn:E0; [intros H; injection H as <- _ <- _; auto|].
+    apply negb_false_iff, Z.eqb_eq in E0.
+    assert (Hr0 : os_revision mem0 = 0%Z).
+    { destruct Hm as (_ & _ & _ & [R|(R & Rn & _)]); [congruence|assumption]. }
+    destruct (os_prev mem) eqn:Eprev.
+    - intros H; injection H as <- _ <- _. split; [assumption|].
+      destruct Hm as (M1 & M2 & M3 & _). unfold okm, revok. cbn. rewrite <- M2, Eprev. repeat split; auto.
+      right. repeat split; auto; [discriminate|]. intros nm [].
+    - destruct (scan_prev _ _ _ _) as [[latest|]|] eqn:Esc.
+      + destruct (update_status sw (set_revision mem (latest + 1))) as [[sw2 m2] ok] eqn:Eu.
+        intros H; injection H as <- _ <- _. eapply update_status_fr; [exact F| |exact Eu].
+        destruct (scan_prev_bound _ _ _ _ _ Esc) as (Hle & Hall).
+        destruct Hm as (M1 & M2 & M3 & _). unfold okm, revok. cbn [set_revision os_id os_prev os_deleting os_revision].
+        repeat split; auto. right. repeat split; auto; [lia|].
+        intros nm Hnm. rewrite <- M2, Eprev in Hnm. destruct (Hall _ Hnm) as (q & Hq & _ & Hql).
+        pose proof (find_set_in _ _ _ _ _ Hq) as Hqin. pose proof (find_set_id _ _ _ _ _ Hq) as (_ & _ & Hqn).
+        destruct (fr_old _ F q Hqin) as [Hq0|Hqm].
+        * exists q. repeat split; auto. lia.
+        * exists mem0. split; [apply mem0_in|]. split; [|lia]. destruct Hqm as (Eid & _). unfold oname. now rewrite <- Eid.
+      + intros H; injection H as <- _ <- _; auto.
+      + intros H; injection H as <- _ <- _; auto.
+  Qed.
+
+  Lemma active_body_fr sw evs0 mem sw' evs r :
+    fr sw -> okm mem -> active_body force sw evs0 mem = (sw', evs, r) -> fr sw'.
+  Proof.
+    intros F Hm. unfold active_body.
+    destruct (revision_pass sw mem) as [[[sw1 evs1] mem1] rr] eqn:Erev.
+    destruct (revision_pass_fr _ _ _ _ _ _ F Hm Erev) as [F1 Hm1].
+    assert (Hfail : forall sw2 evsx rs swf evsf rf, fr sw2 ->
+              (let m' := set_conds mem1 (set_cond (os_conds mem1) (mk_cond mem1 CAvailable SFalse rs)) in
+               let '(sw'', _, ok) := update_status sw2 m' in
+               (sw'', evsx ++ [status_ev m' ok], if ok then SDone true else SError)) = (swf, evsf, rf) -> fr swf).
+    { intros sw2 evsx rs swf evsf rf F2. cbv zeta. destruct (update_status sw2 _) as [[sw3 m3] ok] eqn:Eu.
+      intros H. injection H as <- _ _. eapply update_status_fr; [exact F2| |exact Eu]. eapply okm_same; [exact Hm1|reflexivity..]. }
+    destruct rr.
+    - destruct (Nat.ltb 0 (dup_count [] (map (spec_key mem1) (all_objects mem1)))); [intros H; eapply Hfail; eauto|].
+      destruct (reconcile_phases force (sw_w sw1) (as_owner mem1) _ _ []) as [[w2 pevs] pr].
+      destruct pr as [e| |ctrlof failed].
+      + destruct e; try (intros H; eapply Hfail; [|exact H]; (apply fr_with_w; assumption));
+          intros H; injection H as <- _ _; (apply fr_with_w; assumption).
+      + intros H; eapply Hfail; [|exact H]; (apply fr_with_w; assumption).
+      + destruct (update_status (with_w sw1 w2) (final_status mem1 ctrlof failed)) as [[sw3 m3] ok] eqn:Eu.
+        intros H. injection H as <- _ _. eapply update_status_fr; [apply fr_with_w; exact F1| |exact Eu].
+        eapply okm_same; [exact Hm1|reflexivity..].
+    - destruct (update_status sw1 _) as [[sw2 m2] ok] eqn:Eu. intros H. injection H as <- _ _.
+      eapply update_status_fr; [exact F1| |exact Eu]. eapply okm_same; [exact Hm1|reflexivity..].
+    - intros H. injection H as <- _ _. exact F1.
+  Qed.
+
+  Lemma deletion_pass_fr sw mem sw' evs r :
+    fr sw -> okm mem -> deletion_pass force sw mem = (sw', evs, r) -> fr sw'.
+  Proof.
+    intros F Hm. unfold deletion_pass.
+    set (archived := lifecycle_eqb (os_life mem) LArchived).
+    change (if os_fin mem then if os_orphan mem then (sw_w sw, [], TdOk true)
+            else teardown_phases force (sw_w sw) (as_owner mem) (rev (filter (fun ph => negb (ph_class ph)) (os_phases mem)))
+            else (sw_w sw, [], TdOk true)) with (teardown_of force sw mem).
+    destruct (teardown_of force sw mem) as [[w1 tevs] td].
+    assert (Hfinish : forall sw1 evs1 mem1 swf evsf rf,
+       (if negb archived then (sw1, evs1, SDone false)
+        else let '(sw'', _, ok) := update_status sw1 (set_conds mem1 (remove_cond (os_conds mem1) CAvailable)) in
+             (sw'', evs1 ++ [status_ev (set_conds mem1 (remove_cond (os_conds mem1) CAvailable)) ok], if ok then SDone false else SError)) = (swf, evsf, rf) ->
+       fr sw1 -> okm mem1 -> fr swf).
+    { intros sw1 evs1 mem1 swf evsf rf. destruct (negb archived); [intros H F1 Hm1; injection H as <- _ _; exact F1|].
+      destruct (update_status sw1 _) as [[sw2 m2] ok] eqn:Eu. intros H F1 Hm1. injection H as <- _ _.
+      eapply update_status_fr; [exact F1| |exact Eu]. eapply okm_same; [exact Hm1|reflexivity..]. }
+    assert (Harch_ok : forall m0, okm m0 -> okm (if archived then set_ctrlof (set_conds m0 (set_cond (os_conds m0) (mk_cond m0 CArchived STrue RArchived))) [] else m0)).
+    { intros m0 H0. destruct archived; [|exact H0]. eapply okm_same; [exact H0|reflexivity..]. }
+    destruct td as [|[|]].
+    - intros H. injection H as <- _ _. apply fr_with_w; assumption.
+    - destruct (os_fin mem).
+      + destruct (patch_finalizer (with_w sw w1) mem false) as [sw2 [mem2|]] eqn:Ep;
+          destruct (patch_finalizer_fr _ _ _ _ _ (fr_with_w _ w1 F) Hm Ep) as [F2 Hm2].
+        * intros H. eapply Hfinish; [exact H|exact F2|]. now apply Harch_ok.
+        * intros H. injection H as <- _ _. exact F2.
+      + intros H. eapply Hfinish; [exact H|apply fr_with_w; assumption|]. now apply Harch_ok.
+    - intros H. eapply Hfinish; [exact H|apply fr_with_w; assumption|].
+      destruct archived; [|exact Hm]. eapply okm_same; [exact Hm|reflexivity..].
+  Qed.
+
+  Theorem objectset_pass_fr sw' evs r : objectset_pass force sw0 k ns n = (sw', evs, r) -> fr sw'.
+  Proof.
+    intros H. unfold objectset_pass in H. rewrite Hfind0 in H.
+    destruct (cond_true (os_conds mem0) CArchived); [injection H as <- _ _; apply fr_init|].
+    destruct (os_deleting mem0 || lifecycle_eqb (os_life mem0) LArchived).
+    - eapply deletion_pass_fr; [apply fr_init|apply okm_mem0|exact H].
+    - unfold active_pass in H. destruct (os_fin mem0); [eapply active_body_fr; [apply fr_init|apply okm_mem0|exact H]|].
+      destruct (patch_finalizer sw0 mem0 true) as [sw1 [m|]] eqn:Ep;
+        destruct (patch_finalizer_fr _ _ _ _ _ fr_init okm_mem0 Ep) as [F1 Hm1].
+      + eapply active_body_fr; eauto.
+      + now injection H as <- _ _.
+  Qed.
+End SetFrame.
+
+(** ... and to the ObjectSets of the deployment-level world. *)
+Lemma setpass_oset force w n :
+  NoDup (map sname (dw_sets w)) ->
+  let '(sw', _, _) := objectset_pass force (to_sworld w) (set_kind w) (oi_ns (d_id (dw_dep w))) n in
+  oset_step (dw_sets w) (dw_sets (of_sworld w sw')).
+Proof.
+  intros Hnd. destruct (objectset_pass force (to_sworld w) (set_kind w) (oi_ns (d_id (dw_dep w))) n) as [[sw' evs] r] eqn:Ep.
+  destruct (find_set (sw_sets (to_sworld w)) (set_kind w) (oi_ns (d_id (dw_dep w))) n) as [mem0|] eqn:Ef.
+  2: { unfold objectset_pass in Ep. rewrite Ef in Ep. injection Ep as <- _ _. rewrite (of_to_sworld _ Hnd). apply oset_step_refl. }
+  destruct (find_set_map_ds _ _ _ _ _ Ef) as (x0 & Hx0 & Emem & En).
+  assert (Hnd0 : NoDup (map (fun y => oi_name (os_id y)) (sw_sets (to_sworld w)))) by (cbn; now rewrite map_map).
+  pose proof (objectset_pass_fr force _ _ _ _ mem0 Ef Hnd0 _ _ _ Ep) as [Fold Fkeep Fnd Fpres].
+  cbn [of_sworld dw_sets]. set (S := dw_sets w) in *.
+  (* the image of the target *)
+  assert (Himg : forall o', okm (to_sworld w) mem0 o' -> srel S x0 (rewrap S o')).
+  { intros o' (Eid & Eprev & Edel & Erev).
+    assert (Hrw : rewrap S o' = {| ds_set := o'; ds_hash := ds_hash x0; ds_pbp := ds_pbp x0; ds_sel := ds_sel x0; ds_ctrl := ds_ctrl x0; ds_ctrlset := ds_ctrlset x0 |}).
+    { unfold rewrap. rewrite Eid, <- Emem. fold (sname x0). now rewrite (nodup_find _ _ Hnd Hx0). }
+    rewrite Hrw. unfold srel, sname, srev. cbn [ds_set ds_sel ds_hash]. rewrite Eid, Eprev, Edel, <- Emem. repeat split; auto.
+    destruct Erev as [Er|(Er0 & Ern & Erb)]; [left; now rewrite Er, <- Emem|right].
+    rewrite <- Emem in Er0. split; [assumption|]. split; [assumption|]. intros b Hb Hin.
+    rewrite <- Emem in Erb. destruct (Erb _ Hin) as (q & Hq & Hqn & Hql). cbn in Hq. apply in_map_iff in Hq. destruct Hq as (b' & <- & Hb').
+    assert (b' = b) by (apply (NoDup_map_eq sname S); auto). subst b'. exact Hql. }
+  split; [|split].
+  - intros _. rewrite map_map. erewrite map_ext by (intros; apply sname_rewrap). exact Fnd.
+  - intros x' Hx'. apply in_map_iff in Hx'. destruct Hx' as (o' & <- & Ho'). destruct (Fold o' Ho') as [H0|Hm].
+    + cbn in H0. apply in_map_iff in H0. destruct H0 as (x & <- & Hx). exists x. split; [assumption|].
+      rewrite (rewrap_id _ _ (nodup_find _ _ Hnd Hx)). apply srel_refl.
+    + exists x0. auto.
+  - intros x Hx. destruct (Fkeep (ds_set x) (in_map ds_set _ _ Hx)) as [Hin|Hid].
+    + left. exists x. split; [|apply srel_refl]. rewrite <- (rewrap_id S x (nodup_find _ _ Hnd Hx)). now apply in_map.
+    + assert (x = x0) by (apply (NoDup_map_eq sname S); auto; unfold sname; now rewrite Hid, <- Emem). subst x.
+      destruct Fpres as [(o' & Ho' & Hm)|Hd]; [left; exists (rewrap S o'); split; [now apply in_map|auto]|right; now rewrite Emem].
+Qed.
+
 (** ** Histories *)
 Section Histories.
   Variable hash : N -> option N -> N.
@@ -1565,9 +1812,10 @@ Section Histories.
   Variable sliceaware : bool.
   Variable rev0ok : bool.
 
-  (** The steps the history theorems quantify over: everything except a stale List. *)
+  (** The steps the history theorems quantify over: everything (including full passes of the ObjectSet controller)
+      except a deployment pass with a stale List. *)
   Definition ok_step (s : step) : Prop :=
-    match s with SDep stale _ => stale = false | SSet _ _ => False | _ => True end.
+    match s with SDep stale _ => stale = false | _ => True end.
 
   Lemma listed_fresh_iff w s : In s (listed false w) <-> In s (dw_sets w) /\ ds_sel s = true.
   Proof.
@@ -1635,7 +1883,8 @@ Section Histories.
     - rewrite edit_dep_sets. split; [apply oset_step_refl|]. split; intros; unfold edit_dep; destruct (negb _); reflexivity.
     - rewrite edit_dep_sets. split; [apply oset_step_refl|]. split; intros; unfold edit_dep; destruct (negb _); reflexivity.
     - exfalso. eapply Hnd; reflexivity.
-    - destruct Hok.
+    - pose proof (setpass_oset force w n U1) as Hs.
+      destruct (objectset_pass force (to_sworld w) (set_kind w) (oi_ns (d_id (dw_dep w))) n) as [[sw' evs] r]. auto.
     - destruct (rev_step_oset w n U1) as (H1 & -> & _). auto.
     - destruct (find_dset (dw_sets w) n) as [s|] eqn:Ef; [|split; [apply oset_step_refl|auto]].
       destruct (_ && _ && _); [split; [apply oset_step_refl|auto]|]. cbn [with_sets dw_sets dw_dep].
@@ -1844,7 +2093,7 @@ Section ExactlyOne.
       destruct (matched_dep_pass _ _ _ _ _ HI HM Ep) as (Hnc & HM'). split; [|exact HM'].
       destruct (created_name evs) as [n|] eqn:Ec; [|reflexivity].
       destruct (created_name_some _ _ Ec) as (a & b & c & d & Hi & _). elim (Hnc _ _ _ _ _ Hi).
-    - destruct Hok.
+    - split; [reflexivity|]. eapply matched_oset_step; eauto; apply (do_step_oset hash slices sliceaware rev0ok w (SSet force n)); auto; intros; discriminate.
     - split; [reflexivity|]. eapply matched_oset_step; eauto; apply (do_step_oset hash slices sliceaware rev0ok w (SRev n)); auto; intros; discriminate.
     - split; [reflexivity|]. eapply matched_oset_step; eauto; apply (do_step_oset hash slices sliceaware rev0ok w (SStat n cs co coset)); auto; intros; discriminate.
     - split; [reflexivity|]. eapply matched_oset_step; eauto; apply (do_step_oset hash slices sliceaware rev0ok w (SVanish n)); auto; intros; discriminate.
